@@ -56,7 +56,7 @@ macro_rules | `(tactic| invu_step $hi $h $f) => `(tactic|
 theorem invU_step {c : Cfg} (hc : 18446744073709551615 ≤ c.capacity) {s s' : State} {t : Nat} {l : Label}
     (hi : InvU s) (h : step c s t l = some s') : InvU s' := by
   cases l <;> simp only [step] at h
-  case call op => invu_step hi h stepCall
+  case call op a => invu_step hi h stepCall
   case advance d => simp at h; subst h; exact ⟨hi.nocap, hi.clean⟩
   case read => invu_step hi h stepRead
   case insMap => invu_step hi h stepInsMap
